@@ -30,19 +30,20 @@ fn nontrivial(sim: &Sim<SMVReg>) -> bool {
 pub fn property() -> Property {
     let mut jobs: Vec<Box<dyn JobT>> = Vec::new();
     let variants: Vec<(&str, Disc, Weights, u64, u64)> = vec![
-        ("MVReg/any-order/ops+dups", Disc::Any, Weights::ops_only().with_redeliver(12), 5000, 200_000),
-        ("MVReg/any-order/ops+merges+stale", Disc::Any, Weights::mixed(), 5000, 200_000),
-        ("MVReg/causal/ops", Disc::Causal, Weights::ops_only(), 2000, 60_000),
+        ("MVReg/any-order/ops+dups", Disc::Any, Weights::ops_only().with_redeliver(12), 20000, 200_000),
+        ("MVReg/any-order/ops+merges+stale", Disc::Any, Weights::mixed(), 20000, 200_000),
+        ("MVReg/causal/ops", Disc::Causal, Weights::ops_only(), 8000, 60_000),
     ];
     for (label, disc, w, q, t) in variants {
         let pc = PlanCfg::new(w).steps(4, 28);
         let mut cfg = RunCfg::new(disc);
         cfg.newest_first = disc == Disc::Any;
         jobs.push(
-            job(label, q, t, move || plan_strategy(&pc), move |p: &Plan, st: &mut Stats| {
+            job(label, q, t, { let pc = pc.clone(); move || plan_strategy(&pc) }, move |p: &Plan, st: &mut Stats| {
                 // late-dominated class: counted from the model
                 model_check::<SMVReg>(p, &cfg, st, &nontrivial, "MVReg read differs from the causally-maximal-writes specification")
             })
+            .decoder({ let pc = pc.clone(); move |d: &[u8]| decode_plan(&pc, d) })
             .floor("nontrivial", 0.03)
             .boxed(),
         );
